@@ -590,6 +590,11 @@ pub fn generate(seed: u64, scale: usize, which: &str) -> Cases {
             let n = [4usize, 9, 15, 20, 33, 50][i % 6];
             o.push("simultaneous-joins-connectivity", simultaneous_case(&mut rr, n));
         }
+        // the upper end of the property's range, in the thorough tier only
+        if scale >= 4 {
+            let mut rr = r.fork();
+            o.push("big-network-connectivity-300", big_case(&mut rr, 300, false));
+        }
         // public IP plans: random ids re-keyed after address confirmation, or addresses configured up front
         for i in 0..(6 * scale) {
             let mut rr = r.fork();
